@@ -9,6 +9,10 @@ structure RunState where
   cfg : List ((Nat × Nat) × ContextInstance) := []
   curCtx : Option (Nat × Nat) := none
   curAct : Option Nat := none
+  /-- `emod` / `econd` lines of the current `act` block -/
+  eachMods : List (Nat × ModSpec) := []
+  eachConds : List (Nat × CondSpec) := []
+  schedPrinted : Bool := false
   app : AppState := {}
   keys : List Nat := []
   mouseButtons : List Nat := []
@@ -127,8 +131,10 @@ def doFrame (s : RunState) : RunState :=
   | none => { (s.emit "panic") with panicked := true }
   | some o =>
     let s := { s with app := o.st, pendingMotion := (0, 0), pendingWheel := (0, 0), posts := [], frameNo := n + 1 }
-    let s := s.emitAll (o.log.map showInv)
+    let s := s.emitAll ((o.log.filter (fun i => i.id != 0)).map showInv)
     let s := s.emitAll (o.deliveries.map showDelivery)
+    let s := s.emit ("probe pre " ++ toString o.preCount)
+    let s := s.emit ("probe update " ++ toString o.preCount)
     let s := s.emitAll s.pollLines
     let s := s.emitAll s.hasLines
     let s := s.emit s.groupsLine
@@ -142,17 +148,35 @@ def modifyPad (s : RunState) (g : Nat) (f : Pad → Pad) : RunState :=
 
 def showStateKind (st : AState) (k : Kind) : String := "r " ++ showState st ++ " " ++ ckindCode k
 
+/-- add items (input bindings) to the current action: each gets the block's `each` modifiers / conditions appended -/
+def addItems (s : RunState) (bs : List InputBind) : Option RunState :=
+  let em := s.eachMods.map (fun p => p.2.toMod p.1)
+  let ec := s.eachConds.map (fun p => p.2.toCond p.1)
+  s.modifyAct (fun ab => { ab with bindings := ab.bindings ++ bs.map (fun b => { b with mods := b.mods ++ em, conds := b.conds ++ ec }) })
+
 /-- execute one parsed command; `none` = rejected (e.g. `amod` without a current action) -/
 def exec (s : RunState) (line : String) : Cmd → Option RunState
   | .ctx c v gp =>
     some { s with cfg := s.cfg.filter (fun p => p.1 != (c, v)) ++ [((c, v), { gamepad := gp })],
                   curCtx := some (c, v), curAct := none }
-  | .act a => ({ s with curAct := some a }).modifyAct id
+  | .act a => ({ s with curAct := some a, eachMods := [], eachConds := [] }).modifyAct id
+  | .route _ => some s
+  | .emod id m => some { s with eachMods := s.eachMods ++ [(id, m)] }
+  | .econd id c => some { s with eachConds := s.eachConds ++ [(id, c)] }
+  | .presetCardinal n e w' x => s.addItems (cardinalBinds n e w' x)
+  | .presetBidir p' n => s.addItems (bidirBinds p' n)
+  | .presetStick r => s.addItems (stickBinds r)
   | .amod id m => s.modifyAct (fun ab => { ab with mods := ab.mods ++ [m.toMod id] })
   | .acond id c => s.modifyAct (fun ab => { ab with conds := ab.conds ++ [c.toCond id] })
-  | .inp i => s.modifyAct (fun ab => { ab with bindings := ab.bindings ++ [{ input := i }] })
-  | .imod id m => s.modifyAct (fun ab => modifyLastInput ab (fun b => { b with mods := b.mods ++ [m.toMod id] }))
-  | .icond id c => s.modifyAct (fun ab => modifyLastInput ab (fun b => { b with conds := b.conds ++ [c.toCond id] }))
+  | .inp i => s.addItems [{ input := i }]
+  | .imod id m =>
+    let n := s.eachMods.length
+    s.modifyAct (fun ab => modifyLastInput ab (fun b =>
+      { b with mods := b.mods.take (b.mods.length - n) ++ [m.toMod id] ++ b.mods.drop (b.mods.length - n) }))
+  | .icond id c =>
+    let n := s.eachConds.length
+    s.modifyAct (fun ab => modifyLastInput ab (fun b =>
+      { b with conds := b.conds.take (b.conds.length - n) ++ [c.toCond id] ++ b.conds.drop (b.conds.length - n) }))
   | .key k on => some { s with keys := setMem s.keys k on }
   | .mb b on => some { s with mouseButtons := setMem s.mouseButtons b on }
   | .motion x y => some { s with pendingMotion := addV s.pendingMotion (x, y) }
@@ -202,7 +226,15 @@ def step (s : RunState) (line : String) : Option RunState :=
   if s.panicked then some s else
   match parseCmd? (line.splitOn " ") with
   | none => none
-  | some cmd => s.exec line cmd
+  | some cmd =>
+    let isUnit := match cmd with
+      | .uConvert .. | .uAsBool .. | .uActuated .. | .uAs1 .. | .uAs2 .. | .uAs3 .. | .uZero .. | .uMod .. | .uCond ..
+      | .uAct .. | .uTick .. | .uApply .. | .uEval .. => true
+      | _ => false
+    let s := if !isUnit && !s.schedPrinted then
+        { (s.emit "sched eis_in_preupdate inputsystem_before_eis preupdate_before_update") with schedPrinted := true }
+      else s
+    s.exec line cmd
 
 end RunState
 
